@@ -1187,14 +1187,20 @@ class ArithmeticExpression(Term):
     def get_sql(self, ctx: SqlContext) -> str:
         left_op, right_op = [getattr(side, "operator", None) for side in [self.left, self.right]]
 
+        right_sql = self.right.get_sql(ctx)
+        if self.right_needs_parens(self.operator, right_op) or (
+            # "a"--1 would start a comment
+            self.operator == Arithmetic.sub
+            and right_sql.startswith("-")
+        ):
+            right_sql = "({})".format(right_sql)
+
         arithmetic_sql = "{left}{operator}{right}".format(
             operator=self.operator.value,
             left=("({})" if self.left_needs_parens(self.operator, left_op) else "{}").format(
                 self.left.get_sql(ctx)
             ),
-            right=("({})" if self.right_needs_parens(self.operator, right_op) else "{}").format(
-                self.right.get_sql(ctx)
-            ),
+            right=right_sql,
         )
 
         if ctx.with_alias:
